@@ -317,8 +317,8 @@ namespace {
             [&prog, kinds, mkind](int i) { run_party(m, prog, i, kinds[(size_t) i], mkind); });
         // every lock is followed by its unlock inside the same operation, so once faults stop every
         // blocked locker must get the mutex: bounded liveness decides "no unlock is lost"
-        sim_quiesce(2000000);
         while (!P.all_finished()) main_pause();
+        sim_quiesce(2000000);
         P.join_os();
         VH_CHECK(G.occupancy == 0 && G.owner == -1, "C06.mutual_exclusion",
             "at the end occupancy=%d owner=%d", G.occupancy, G.owner);
